@@ -8,6 +8,7 @@ M8 (part 5) — the printers behind `RoocParser::format`: `Display for PreExp` w
 -/
 import Rooc.Gen.Prec
 import Rooc.Syntax.PExp
+import Rooc.Syntax.Render
 namespace Rooc.Syntax
 
 /-- `Display for BinOp` -/
@@ -60,7 +61,7 @@ def indexText (e : PExp) (s : String) : String :=
 mutual
 /-- `impl Display for PreExp` -/
 def fmtExp : PExp → String
-  | .int v => toString v
+  | .int v => String.ofList (natDigits v)      -- `i64::to_string`
   | .num t => t
   | .bool b => if b then "true" else "false"
   | .str s => "\"" ++ s ++ "\""
